@@ -156,12 +156,12 @@ func (d *deviceStatements) prepare(db *sql.DB) error {
 		return fmt.Errorf("unable to prepare update state statement: %v", err)
 	}
 
-	advanceUp := `UPDATE lora_devices SET fcnt_up = $1, key_warning = $2 WHERE eui = $3 AND fcnt_up <= $4`
+	advanceUp := `UPDATE lora_devices SET fcnt_up = $1, key_warning = $2 WHERE eui = $3 AND fcnt_up <= $4 AND nwks_key = $5`
 	if d.advanceUpStatement, err = db.Prepare(advanceUp); err != nil {
 		return fmt.Errorf("unable to prepare uplink counter statement: %v", err)
 	}
 
-	nextDown := `UPDATE lora_devices SET fcnt_dn = (fcnt_dn + 1) % 65536 WHERE eui = $1 RETURNING fcnt_dn`
+	nextDown := `UPDATE lora_devices SET fcnt_dn = (fcnt_dn + 1) % 65536 WHERE eui = $1 AND nwks_key = $2 RETURNING fcnt_dn`
 	if d.nextDownStatement, err = db.Prepare(nextDown); err != nil {
 		return fmt.Errorf("unable to prepare downlink counter statement: %v", err)
 	}
@@ -368,29 +368,34 @@ func (s *Storage) UpdateDeviceState(device model.Device) error {
 }
 
 // AdvanceFCntUp stores newFCntUp as the next expected uplink frame counter (and the key
-// warning flag), provided the stored counter has not moved past acceptedFCnt. The test
-// and the write are one statement: of two handlers working on copies of one frame, or on
-// frames overtaking each other, only the first succeeds; the other gets ErrNotFound.
-func (s *Storage) AdvanceFCntUp(eui protocol.EUI, acceptedFCnt uint16, newFCntUp uint16, keyWarning bool) error {
+// warning flag), provided the stored counter has not moved past acceptedFCnt and the
+// device is still in the session the frame was verified in (nwkSKey). The test and the
+// write are one statement: of two handlers working on copies of one frame, or on frames
+// overtaking each other, only the first succeeds, and a frame of an earlier session
+// that arrives after a join cannot touch the new session's counter; the others get
+// ErrNotFound.
+func (s *Storage) AdvanceFCntUp(eui protocol.EUI, nwkSKey protocol.AESKey, acceptedFCnt uint16, newFCntUp uint16, keyWarning bool) error {
 	if err := verifgate.Gate("AdvanceFCntUp"); err != nil {
 		return err
 	}
 	return s.doSQLExec(s.devStmt.advanceUpStatement, func(st *sql.Stmt) (sql.Result, error) {
-		return st.Exec(newFCntUp, keyWarning, eui.ToInt64(), acceptedFCnt)
+		return st.Exec(newFCntUp, keyWarning, eui.ToInt64(), acceptedFCnt, nwkSKey.String())
 	})
 }
 
-// NextFCntDn reserves the next downlink frame counter of the device: it returns the
-// stored counter and stores its successor in one statement, so no two downlinks of a
-// session are numbered alike however their encoders overlap.
-func (s *Storage) NextFCntDn(eui protocol.EUI) (uint16, error) {
+// NextFCntDn reserves the next downlink frame counter of the device's session nwkSKey:
+// it returns the stored counter and stores its successor in one statement, so no two
+// downlinks of a session are numbered alike however their encoders overlap. If the
+// device is no longer in that session (it has joined again meanwhile) nothing is
+// reserved and ErrNotFound is returned.
+func (s *Storage) NextFCntDn(eui protocol.EUI, nwkSKey protocol.AESKey) (uint16, error) {
 	if err := verifgate.Gate("NextFCntDn"); err != nil {
 		return 0, err
 	}
 	s.mutex.Lock()
 	defer s.mutex.Unlock()
 	var next int64
-	err := s.devStmt.nextDownStatement.QueryRow(eui.ToInt64()).Scan(&next)
+	err := s.devStmt.nextDownStatement.QueryRow(eui.ToInt64(), nwkSKey.String()).Scan(&next)
 	if err == sql.ErrNoRows {
 		return 0, ErrNotFound
 	}
